@@ -1145,6 +1145,10 @@ def to_dict(x: Domain) -> Dict[str, Any]:
     }
     sampler = x.get_sampler()
     if sampler is not None:
+        if isinstance(sampler, Quantized):
+            # Store the quantization factor and the wrapped sampler
+            result["quantization"] = sampler.q
+            sampler = sampler.get_sampler()
         result.update({"sampler_cls": str(sampler), "sampler_kwargs": sampler.__dict__})
     return result
 
@@ -1162,6 +1166,8 @@ def from_dict(d: Dict[str, Any]) -> Domain:
         sampler_kwargs = d["sampler_kwargs"]
         sampler = sampler_cls(**sampler_kwargs)
         domain.set_sampler(sampler)
+    if "quantization" in d:
+        domain = domain.quantized(d["quantization"])
     return domain
 
 
